@@ -1,7 +1,7 @@
 (* Property C11 — TS packet header and adaptation field per ISO 13818-1 (theorems only; proofs in Proofs/). *)
 From Coq Require Import ZArith List.
 Require Import Base.Bits Base.Iter Base.Wr Gen.Types Model.Clock Model.Packet Spec.PesSpec Spec.PacketSpec
-  Proofs.ClockProofs Proofs.PacketProofs Proofs.PacketWrite Proofs.PacketExamples.
+  Proofs.ClockProofs Proofs.PacketProofs Proofs.PacketWrite Proofs.PacketRoundTrip Proofs.PacketExamples.
 Import ListNotations.
 Open Scope Z_scope.
 
@@ -36,3 +36,13 @@ Proof. exact write_packet_188. Qed.
 Print Assumptions C11_write_188.
 Example C11_write_188_inhabited : exists bs, write_packet ex_packet 188 = Ok bs.
 Proof. eexists. vm_compute. reflexivity. Qed.
+
+(* parsing what the writer emits for any conformant packet (every subset of the 5 optional parts and the 3
+   extension parts, adaptation_field_length 0..183, any field values within their widths, any stuffing length,
+   payload filling the rest) yields that packet, with the derived length fields filled in *)
+Theorem C11_parse_write : forall p, wf_packet p ->
+  exists bs, write_packet p 188 = Ok bs /\ length bs = 188%nat /\ parse_packet_bytes bs = Ok (observed p).
+Proof. exact parse_write_packet. Qed.
+Print Assumptions C11_parse_write.
+Example C11_parse_write_inhabited : wf_packet ex_packet.
+Proof. exact ex_packet_wf. Qed.
